@@ -371,7 +371,9 @@ class Randomizer(RandIF):
 #                problem_constraints.append(c[0])
                 
         if btor.Sat() != btor.SAT:
-            raise Exception("internal error: system should solve")
+            # The conflict involves more constraints than the subsets 
+            # tried above: report what remains as one problem set
+            problem_sets.append(tuple(diagnostic_constraint_l))
         
         # Okay, we now have a constraint system that solves, and
         # a list of constraints that are a problem. We want to 
@@ -396,6 +398,15 @@ class Randomizer(RandIF):
         return ret
 
     def create_diagnostics(self, active_randsets) -> str:
+        try:
+            return self._create_diagnostics(active_randsets)
+        finally:
+            # Release the solver handles however the analysis ends
+            for rs in active_randsets:
+                for f in rs.all_fields():
+                    f.dispose()
+        
+    def _create_diagnostics(self, active_randsets) -> str:
         
         btor = Boolector()
         btor.Set_opt(BTOR_OPT_INCREMENTAL, True)
@@ -455,7 +466,9 @@ class Randomizer(RandIF):
             btor.Assert(c[1])
                 
         if btor.Sat() != btor.SAT:
-            raise Exception("internal error: system should solve")
+            # The conflict involves more constraints than the subsets 
+            # tried above: report what remains as one problem set
+            problem_sets.append(tuple(diagnostic_constraint_l))
         
         # Okay, we now have a constraint system that solves, and
         # a list of constraints that are a problem. We want to 
